@@ -19,14 +19,20 @@ func reset() {
 	sem.ComparePreRelease = sem.DefaultComparePreRelease[string, string]
 }
 
-func typed(err error) bool {
+// typedFor: the parse error is typed by the kind of input that was passed (ParseError[T].Input has the caller's type)
+func typedFor(err error, bytesInput bool) bool {
+	if bytesInput {
+		var b *sem.ParseError[[]byte]
+		return errors.As(err, &b)
+	}
 	var a *sem.ParseError[string]
-	var b *sem.ParseError[[]byte]
-	return errors.As(err, &a) || errors.As(err, &b)
+	return errors.As(err, &a)
 }
 
 type arg struct {
-	In mc.Bin `json:"in"`
+	In   mc.Bin  `json:"in"`
+	Prev *mc.Bin `json:"previous_call,omitempty"` // history of depth 2: this text is parsed first, on the buffer that is then reused for In
+	Via  int     `json:"previous_via,omitempty"`  // which single call is made first: 2*entry + (0 string | 1 []byte on the shared buffer)
 }
 
 // tag policy per entry point: 0 optional, 1 forbidden, 2 required
@@ -72,11 +78,27 @@ func expectFor(in string, policy int) (accept bool, sv oracle.Semver, tag bool) 
 
 func probe(a arg) (string, string) {
 	in := string(a.In)
+	var histBuf []byte // history of depth 2: the previous call's buffer, reused (overwritten in place) for the []byte paths
+	if a.Prev != nil {
+		histBuf = make([]byte, 0, 2048)
+		histBuf = append(histBuf, *a.Prev...)
+		e := entries[a.Via/2%len(entries)] // exactly one previous call, so that no other call disturbs whatever state it may leave behind
+		if a.Via%2 == 0 && e.str != nil {
+			_, _ = e.str(string(*a.Prev))
+		} else {
+			_, _ = e.byt(histBuf)
+		}
+	}
 	for _, e := range entries {
 		accept, sv, tag := expectFor(in, e.policy)
-		for k := 0; k < 2; k++ {
+		for kk := 0; kk < 2; kk++ {
+			k := kk
+			if histBuf != nil { // history: the reused buffer is parsed first, directly after the previous call
+				k = 1 - kk
+			}
 			var v sem.Ver
 			var err error
+			var scribbled []byte
 			if k == 0 {
 				if e.str == nil {
 					continue
@@ -84,12 +106,19 @@ func probe(a arg) (string, string) {
 				v, err = e.str(in)
 			} else {
 				cp := []byte(in)
+				if histBuf != nil {
+					cp = append(histBuf[:0], in...)
+				}
 				v, err = e.byt(cp)
+				scribbled = cp
 			}
 			path := e.name + map[int]string{0: "[string]", 1: "[[]byte]"}[k]
 			if accept {
 				if err != nil {
 					return "grammatical_text_rejected", fmt.Sprintf("%s(%q) rejected: %v", path, in, err)
+				}
+				for i := range scribbled { // the caller goes on to reuse its buffer: the parsed texts must be the caller-independent literal texts
+					scribbled[i] = '#'
 				}
 				if strconv.FormatUint(v.Major, 10) != sv.Major || strconv.FormatUint(v.Minor, 10) != sv.Minor || strconv.FormatUint(v.Patch, 10) != sv.Patch || v.PreRelease != sv.Pre || v.Build != sv.Build {
 					return "wrong_components", fmt.Sprintf("%s(%q) = %+v; written %s.%s.%s pre=%q build=%q", path, in, v, sv.Major, sv.Minor, sv.Patch, sv.Pre, sv.Build)
@@ -101,6 +130,11 @@ func probe(a arg) (string, string) {
 				out, ferr := sem.DefaultFormatter(nil, v, f)
 				if ferr != nil || string(out) != in {
 					return "format_not_byte_exact", fmt.Sprintf("%s(%q) formats back as %q (%v)", path, in, out, ferr)
+				}
+				for _, spare := range []int{1, len(in), len(in) + 1, 64} { // byte-exact also into a buffer with spare capacity
+					if out, ferr := sem.DefaultFormatter(make([]byte, 0, spare), v, f); ferr != nil || string(out) != in {
+						return "format_not_byte_exact", fmt.Sprintf("%s(%q) formats back into a buffer of capacity %d as %q (%v)", path, in, spare, out, ferr)
+					}
 				}
 				if verr := v.Valid(); verr != nil {
 					return "parsed_value_not_valid", fmt.Sprintf("%s(%q).Valid() = %v", path, in, verr)
@@ -122,8 +156,8 @@ func probe(a arg) (string, string) {
 			if v != (sem.Ver{}) {
 				return "nonzero_result_with_error", fmt.Sprintf("%s(%q) = %+v with %v", path, in, v, err)
 			}
-			if !typed(err) {
-				return "untyped_error", fmt.Sprintf("%s(%q): %T %v", path, in, err, err)
+			if !typedFor(err, k == 1) {
+				return "untyped_error", fmt.Sprintf("%s(%q): %T %v is not a *sem.ParseError of the input's type", path, in, err, err)
 			}
 		}
 	}
@@ -213,7 +247,7 @@ func main() {
 		p := mc.NewProbe(r, "parse", nil, probe)
 		pv := mc.NewProbe(r, "valid_roundtrip", nil, probeValid)
 		r.Assume("reference: recursive-descent recogniser of the semver.org BNF (split at first '+', then first '-'; numeric identifiers without leading zeros; build identifiers may have leading zeros), uint64 limit by decimal-string comparison; no regexp")
-		r.Assume("rejections must be typed (*sem.ParseError of either instantiation) with a zero Ver; which sentinel is wrapped is not constrained (the statement does not name one)")
+		r.Assume("rejections must be typed (*sem.ParseError instantiated with the type of the input that was passed) with a zero Ver; which sentinel is wrapped is not constrained (the statement does not name one)")
 		one := func(w *mc.W, s []byte) {
 			w.Point()
 			acc, sv, _ := expectFor(string(s), 0)
@@ -226,7 +260,7 @@ func main() {
 			default:
 				w.Outcome("reject")
 			}
-			p.Do(w, arg{mc.Bin(s)})
+			p.Do(w, arg{In: mc.Bin(s)})
 		}
 		pfl := mc.NewProbe(r, "two_results_in_flight", nil, probeFlight)
 		r.Phase("serial: two results in flight (formatted text and parsed value must survive later calls), all ordered pairs of 12 versions", "complete for the listed versions", func() {
@@ -240,6 +274,21 @@ func main() {
 				}
 			})
 		})
+		r.Phase("serial: all histories of two calls over 24 texts (the second call is judged on every entry point; the caller reuses one buffer)", "complete for depth 2 over the listed texts", func() {
+			texts := []string{"1.2.3", "1.2.4", "v1.2.3", "1.2.3-rc.1", "1.2.3-rc.2", "1.2.3+b1", "1.2.3+b2", "1.2.3-a+b", "1.2.3-a+c", "v1.2.3-a", "1.2", "1.2.x", "", "v", "01.2.3", "1.2.3-01", "1.2.3-", "9.9.9", "9.9.8",
+				"18446744073709551615.0.0", "18446744073709551616.0.0", "1.2.3-zz", "1.2.3-zy", "v9.9.9+zz"}
+			r.Serial(func(w *mc.W) {
+				for _, x := range texts {
+					for _, y := range texts {
+						for via := 0; via < 2*len(entries); via++ {
+							w.Point()
+							px := mc.Bin(x)
+							p.Do(w, arg{In: mc.Bin(y), Prev: &px, Via: via})
+						}
+					}
+				}
+			})
+		})
 		L := 7
 		if !r.Quick() {
 			L = 8
@@ -247,7 +296,7 @@ func main() {
 		r.Phase(fmt.Sprintf("all strings over {0,1,9,a,Z,-,.,+,v} of length 0..%d x 6 entry points x {string,[]byte}", L), "complete", func() {
 			r.Strings([]byte("019aZ-.+v"), 0, L, one)
 		})
-		r.Sample("string", arg{"v1.0.0-a"})
+		r.Sample("string", arg{In: "v1.0.0-a"})
 		SL := 6
 		if !r.Quick() {
 			SL = 7
@@ -260,7 +309,7 @@ func main() {
 				})
 			}
 		})
-		r.Sample("suffix", arg{"1.0.0-0.a+01.-"})
+		r.Sample("suffix", arg{In: "1.0.0-0.a+01.-"})
 		CL := 9
 		if !r.Quick() {
 			CL = 10
@@ -280,7 +329,7 @@ func main() {
 				}
 			})
 		})
-		r.Sample("number", arg{"0.18446744073709551616.0"})
+		r.Sample("number", arg{In: "0.18446744073709551616.0"})
 		valid := []string{"0.0.0", "1.2.3", "v1.2.3", "1.0.0-alpha", "1.0.0-alpha.1", "1.0.0-0.3.7", "1.0.0-x.7.z.92", "1.0.0-x-y-z.--", "1.0.0-alpha+001", "1.0.0+20130313144700", "1.0.0-beta+exp.sha.5114f85", "1.0.0+21AF26D3----117B344092BD",
 			"v10.20.30-rc.1+build.5", "18446744073709551615.18446744073709551615.18446744073709551615", "1.0.0--", "1.0.0+-", "1.0.0-a.b.c", "v0.0.0-0", "2.0.0-rc.1+b", "1.0.0-0A", "1.0.0-A0", "1.0.0-1a.2b", "1.0.0+0.0.00", "v1.0.0-Z.z", "1.1.2-prerelease+meta",
 			"1.1.2+meta-valid", "1.0.0-alpha-a.b-c-somethinglong+build.1-aef.1-its-okay", "1.0.0-rc.1+build.1", "2.0.0+build.1848", "2.0.1-alpha.1227", "1.2.3----RC-SNAPSHOT.12.9.1--.12+788", "1.2.3----R-S.12.9.1--.12+meta", "1.0.0-0A.is.legal", "10.2.3-DEV-SNAPSHOT", "1.2.3-SNAPSHOT-123", "1.0.0-9", "1.0.0-90", "v9.9.9", "0.1.0", "1.10.100"}
@@ -291,7 +340,7 @@ func main() {
 				mc.Mutations1([]byte(valid[i]), mc.AllBytes, func(m []byte) { one(w, m) })
 			})
 		})
-		r.Sample("mutant", arg{"1.0.0-alpha\n"})
+		r.Sample("mutant", arg{In: "1.0.0-alpha\n"})
 		r.Phase("length limit: texts of length 1020..1030 (valid shape) ", "complete grid", func() {
 			r.Serial(func(w *mc.W) {
 				for l := 1018; l <= 1030; l++ {
